@@ -2,7 +2,7 @@
 (* C18: TLD validity follows the delegation table.  The table is a header event of the trace   *)
 (* (read from the AST of util/gtld_map.go on every run); dates are <<y, m, d>>, <<>> = empty,   *)
 (* <<0>> = present but not of the form yyyy-mm-dd.                                              *)
-EXTENDS Base
+EXTENDS Intervals
 Leap(y) == (y % 4 = 0 /\ y % 100 # 0) \/ y % 400 = 0
 DaysIn(y, m) == CASE m \in {1, 3, 5, 7, 8, 10, 12} -> 31 [] m \in {4, 6, 9, 11} -> 30 [] m = 2 -> (IF Leap(y) THEN 29 ELSE 28) [] OTHER -> 0
 CalendarValid(d) == Len(d) = 3 /\ d[1] \in 1..9999 /\ d[2] \in 1..12 /\ d[3] \in 1..DaysIn(d[1], d[2])
@@ -17,7 +17,7 @@ EntryWellFormed(x) == /\ x.key = x.keyLower /\ x.key = x.gtld /\ x.key # ""
                       /\ CalendarValid(x.deleg)
                       /\ (x.removal = <<>> \/ (CalendarValid(x.removal) /\ Le(Midnight(x.deleg), Midnight(x.removal))))
 \* valid at instant t: not before the delegation date and, when a removal date is recorded, not after it
-ValidAt(x, t) == Le(Midnight(x.deleg), t) /\ (x.removal = <<>> \/ Le(t, Midnight(x.removal)))
+ValidAt(x, t) == ValidBetween(Midnight(x.deleg), x.removal # <<>>, IF x.removal = <<>> THEN Zero ELSE Midnight(x.removal), t)
 \* a name built from components: the right-most label is the table key (any case) unless a trailing dot makes it empty
 NameValid(known, x, dot, t) == known /\ ~dot /\ ValidAt(x, t)
 \* the TLD lint on a subscriber certificate: error iff its non-IP common name or one of its DNS names fails the test at notBefore
